@@ -214,19 +214,28 @@ Proof.
     + repeat split; auto. exists []; reflexivity.
 Qed.
 
+Lemma parse_op_oob kind p : length toks <= p -> parse_op tb toks kind p = None.
+Proof. intros H. unfold parse_op. apply nth_error_None in H. rewrite H. reflexivity. Qed.
+
+(* the loop over postfix operators keeps the invariant, and with enough fuel (one unit per remaining token) it
+   stops only where no postfix operator stands *)
 Lemma postfixes_PA : forall k s, PA (opds s) (ops s) -> closedR (opds s) ->
-  let s' := postfixes tb toks k s in PA (opds s') (ops s') /\ closedR (opds s').
+  let s' := postfixes tb toks k s in PA (opds s') (ops s') /\ closedR (opds s')
+  /\ (length toks < pos s + k -> parse_op tb toks is_postfix_row (pos s') = None).
 Proof.
-  induction k as [|k IH]; intros s HA Hc; cbn [postfixes]; auto.
-  destruct (parse_op tb toks is_postfix_row (pos s)) as [[[[prec ai] name] p']|] eqn:E; auto.
-  destruct (parse_op_lk _ _ _ _ _ _ _ E) as (Hl & _ & _). pose proof (lk_postfix_id _ _ _ Hl) as ->.
+  induction k as [|k IH]; intros s HA Hc; cbv zeta; cbn [postfixes].
+  { split; [exact HA|]. split; [exact Hc|]. intros H. apply parse_op_oob. lia. }
+  destruct (parse_op tb toks is_postfix_row (pos s)) as [[[[prec ai] name] p']|] eqn:E; [|split; [exact HA|split; [exact Hc|intros _; exact E]]].
+  destruct (parse_op_lk _ _ _ _ _ _ _ E) as (Hl & Hp' & _). pose proof (lk_postfix_id _ _ _ Hl) as ->.
   destruct (pop_while_PA (Some (prec, 4)) (length (ops s)) (fun e => fst (fst e) <? prec) s HA) as (R1 & R2 & _ & _ & _ & _ & R7).
   { apply closedR_rsp; exact Hc. }
   { intros e He. unfold okL', okL. cbn [fst]. rewrite He. reflexivity. }
   specialize (R7 (le_n _)).
   set (s1 := pop_while _ _ s) in *.
   destruct (opds s1) as [|t rest] eqn:Eo; [destruct R1|].
-  apply IH; cbn [opds ops closedR]; auto.
+  match goal with |- context [postfixes tb toks k ?S] => destruct (IH S) as (I1 & I2 & I3) end;
+    [| exact I | split; [exact I1|split; [exact I2|intros H; apply I3; cbn [pos]; lia]]].
+  cbn [opds ops].
   destruct R1 as (Ht & Hf & HB). cbn [top_rsp' top_rsp] in R2.
   cbn [PA pok]. rewrite Hl, Ht, R2. split; [reflexivity|]. split; [|exact HB].
   destruct (ops s1) as [|[[q0 a0] o0] op'] eqn:Eops; cbn [top_fits]; auto.
@@ -259,14 +268,15 @@ Lemma prec_loop_PA nm a : forall k prec s,
   /\ (snd r = false -> pos (fst r) = pos s)
   /\ (snd r = true -> pos (fst r) = outer s)
   /\ (snd r = false -> length (ops s) < k ->
-      match ops (fst r) with (tp, ta, _) :: _ => okR (tp, ta) prec = true | [] => True end).
+      match ops (fst r) with (tp, ta, _) :: _ => okR (tp, ta) prec = true | [] => True end)
+  /\ (snd r = true -> a = 3).
 Proof.
   induction k as [|k IH]; intros prec s Hnew HA Hr; cbv zeta; cbn [prec_loop].
   - cbn [fst snd]. split; [exact HA|]. split; [exact Hr|]. do 2 (split; [reflexivity|]). split; [exists 0; reflexivity|].
-    split; [reflexivity|]. split; [discriminate|]. intros _ Hk. lia.
+    split; [reflexivity|]. split; [discriminate|]. split; [intros _ Hk; lia|discriminate].
   - destruct (ops s) as [|[[tp ta] o] ops'] eqn:Eo.
     + cbn [fst snd]. rewrite Eo. split; [exact HA|]. split; [exact Hr|]. do 2 (split; [reflexivity|]).
-      split; [exists 0; reflexivity|]. split; [reflexivity|]. split; [discriminate|]. auto.
+      split; [exists 0; reflexivity|]. split; [reflexivity|]. split; [discriminate|]. split; [auto|discriminate].
     + assert (Hsame : tp = prec -> ta = a).
       { intros ->. destruct (opds s) as [|t rest]; [destruct HA|]. destruct HA as (_ & _ & HB).
         destruct (PB_top_lk _ _ _ _ _ HB) as (kind & Hk). eapply lk_same_row; eauto. }
@@ -277,17 +287,20 @@ Proof.
           apply orb_true_iff in E1. destruct E1 as [E1|E1]; [rewrite E1; reflexivity|].
           apply andb_true_iff in E1. destruct E1 as (E1 & E2). apply Nat.eqb_eq in E1, E2.
           rewrite <- (Hsame E1), E2. subst tp. rewrite Nat.eqb_refl. cbn. apply orb_true_r. }
-        destruct (IH prec (pop_operator s) Hnew P1 P2) as (Q1 & Q2 & Q3 & Q4 & (n & Q5) & Q6 & Q7 & Q8).
+        destruct (IH prec (pop_operator s) Hnew P1 P2) as (Q1 & Q2 & Q3 & Q4 & (n & Q5) & Q6 & Q7 & Q8 & Q9).
         split; [exact Q1|]. split; [exact Q2|]. split; [congruence|]. split; [congruence|].
         split; [exists (S n); rewrite Q5, P3, Eo; reflexivity|].
         split; [intros Hc; rewrite (Q6 Hc); exact P6|].
         split; [intros Hc; rewrite (Q7 Hc); exact P5|].
+        split; [|exact Q9].
         intros Hc Hk. apply Q8; auto. rewrite P3, Eo. cbn in *. lia.
       * destruct ((tp =? prec) && (ta =? 3)) eqn:E2; cbn [fst snd opds ops outer marker pos].
         -- rewrite <- Eo. split; [exact HA|]. split; [exact Hr|]. do 2 (split; [reflexivity|]).
-           split; [exists 0; reflexivity|]. split; [discriminate|]. split; [reflexivity|]. discriminate.
+           split; [exists 0; reflexivity|]. split; [discriminate|]. split; [reflexivity|]. split; [discriminate|].
+           intros _. apply andb_true_iff in E2. destruct E2 as (E2 & E3). apply Nat.eqb_eq in E2, E3.
+           rewrite <- (Hsame E2). exact E3.
         -- rewrite <- Eo. split; [exact HA|]. split; [exact Hr|]. do 2 (split; [reflexivity|]).
-           split; [exists 0; reflexivity|]. split; [reflexivity|]. split; [discriminate|].
+           split; [exists 0; reflexivity|]. split; [reflexivity|]. split; [discriminate|]. split; [|discriminate].
            intros _ _. rewrite Eo. unfold okR. cbn [fst snd].
            apply orb_false_iff in E1. destruct E1 as (E1 & E1').
            destruct (Nat.ltb_spec prec tp) as [Hlt|Hge]; [reflexivity|].
@@ -351,7 +364,7 @@ Proof.
     assert (HA2 : PA (opds s2) (ops s2)).
     { cbn [s2 opds ops PA pok]. split; [reflexivity|]. split; [|exact HB1].
       destruct (ops s1) as [|[[q0 a0] o0] ?]; cbn; auto. }
-    destruct (postfixes_PA (length toks + 1) s2 HA2) as (HA3 & Hcl); [exact I|].
+    destruct (postfixes_PA (length toks + 1) s2 HA2) as (HA3 & Hcl & _); [exact I|].
     set (s3 := postfixes tb toks (length toks + 1) s2) in *.
     set (s4 := MK (opds s3) (ops s3) (length (ops s3)) (pos s3) (pos s3)) in *.
     assert (Hfin4 : forall t e, finish s4 = Some (t, e) -> pok t = true).
@@ -360,7 +373,7 @@ Proof.
     destruct (parse_op tb toks is_infix_row (pos s4)) as [[[[prec a] name] p'']|] eqn:Einf;
       [|inversion Hm; subst; eauto].
     destruct (parse_op_lk _ _ _ _ _ _ _ Einf) as (Hl & _ & _).
-    destruct (prec_loop_PA name a (length (ops s4) + 1) prec (set_pos s4 p'') Hl) as (Q1 & Q2 & Q3 & Q4 & (n & Q5) & Q6 & Q7 & Q8).
+    destruct (prec_loop_PA name a (length (ops s4) + 1) prec (set_pos s4 p'') Hl) as (Q1 & Q2 & Q3 & Q4 & (n & Q5) & Q6 & Q7 & Q8 & Q9).
     { exact HA3. } { apply closedR_rsp. exact Hcl. }
     destruct (prec_loop (length (ops s4) + 1) prec (set_pos s4 p'')) as [s5 conflict] eqn:Epl.
     cbn [fst snd] in *. cbn [set_pos opds ops outer marker pos s4] in Q3, Q4, Q5, Q8.
@@ -391,6 +404,113 @@ Proof.
       eapply (finish_pok (set_pos s1 (outer s1))); [|exact Hf]. cbn [set_pos opds ops marker]. exact Hc2.
 Qed.
 
+
+(* ---- where the loop stops (the extent clause of C02) ---- *)
+Definition is_op (kind : assoc -> bool) (p : nat) : bool :=
+  match parse_op tb toks kind p with Some _ => true | None => false end.
+Fixpoint skip_pre (k p : nat) : nat :=
+  match k with 0 => p | S k => if is_op is_prefix_row p then skip_pre k (S p) else p end.
+(* the operator at e is not followed by an operand: after any number of prefix operators comes no operand *)
+Definition dangling (e : nat) : Prop := parse_opd toks (skip_pre (length toks + 1) (S e)) = None.
+(* the expression ends at e only if no postfix operator stands there, and no infix operator either - unless that operator
+   is not followed by an operand (it is left unconsumed) or belongs to a non-associative row *)
+Definition stop_ok (e : nat) : Prop :=
+  is_op is_postfix_row e = false /\
+  (has_infix tb = false \/ is_op is_infix_row e = false \/ dangling e
+   \/ exists q nm p', parse_op tb toks is_infix_row e = Some ((q, 3, nm), p')).
+
+Lemma prefixes_pos : forall k s, pos (prefixes tb toks k s) = skip_pre k (pos s).
+Proof.
+  induction k as [|k IH]; intros s; cbn [prefixes skip_pre]; [reflexivity|]. unfold is_op.
+  destruct (parse_op tb toks is_prefix_row (pos s)) as [[e p']|] eqn:E; [|reflexivity].
+  rewrite IH. cbn [pos]. destruct e as [[q a] nm]. destruct (parse_op_lk _ _ _ _ _ _ _ E) as (_ & -> & _). reflexivity.
+Qed.
+
+(* what is known before an operand is read: nothing has been read yet, or an infix operator at [outer] has just been
+   read, no postfix operator stands there, and the position is just behind it *)
+Definition JE (s : st) : Prop :=
+  opds s = [] \/
+  (pos s = S (outer s) /\ is_op is_postfix_row (outer s) = false /\ is_op is_infix_row (outer s) = true /\ has_infix tb = true).
+
+Lemma finish_pos sf t e : finish sf = Some (t, e) -> e = pos sf.
+Proof.
+  unfold finish. destruct (opds sf); [discriminate|].
+  match goal with |- context [pop_while ?k ?c ?s0] => pose proof (pop_while_pos k c s0) as Hp; destruct (rev (opds (pop_while k c s0))) end;
+    [discriminate|]. intros H. inversion H; subst. rewrite Hp. reflexivity.
+Qed.
+
+Lemma prefixes_keep : forall k s, outer (prefixes tb toks k s) = outer s /\ opds (prefixes tb toks k s) = opds s.
+Proof.
+  induction k as [|k IH]; intros s; cbn [prefixes]; [auto|].
+  destruct (parse_op tb toks is_prefix_row (pos s)) as [[e p']|]; [|auto].
+  destruct (IH (MK (opds s) (e :: ops s) (marker s) (outer s) p')) as (A & B). cbn [outer opds] in *. auto.
+Qed.
+
+Theorem main2_stop : forall k s sf t e,
+  JB s -> JE s -> main2 tb toks k s = Some sf -> finish sf = Some (t, e) -> stop_ok e.
+Proof.
+  induction k as [|k IH]; intros s sf t e (HB & HC) HE Hm Hf; [discriminate|].
+  cbn [main2] in Hm.
+  destruct (prefixes_PB (length toks + 1) s HB) as (HB1 & _).
+  pose proof (prefixes_pos (length toks + 1) s) as Hpos1.
+  destruct (prefixes_keep (length toks + 1) s) as (Hout1 & Hopd1).
+  set (s1 := prefixes tb toks (length toks + 1) s) in *.
+  destruct (parse_opd toks (pos s1)) as [[v p']|] eqn:Eopd.
+  - set (s2 := MK (Opd v :: opds s1) (ops s1) (marker s1) (outer s1) p') in *.
+    assert (HA2 : PA (opds s2) (ops s2)).
+    { cbn [s2 opds ops PA pok]. split; [reflexivity|]. split; [|exact HB1].
+      destruct (ops s1) as [|[[q0 a0] o0] ?]; cbn; auto. }
+    assert (Hp' : p' = S (pos s1)).
+    { unfold parse_opd in Eopd. destruct (nth_error toks (pos s1)) as [[v0|n0]|]; try discriminate. inversion Eopd; reflexivity. }
+    destruct (postfixes_PA (length toks + 1) s2 HA2) as (HA3 & Hcl & Hstop); [exact I|].
+    assert (Hnopost : parse_op tb toks is_postfix_row (pos (postfixes tb toks (length toks + 1) s2)) = None).
+    { apply Hstop. cbn [s2 pos]. lia. }
+    set (s3 := postfixes tb toks (length toks + 1) s2) in *.
+    set (s4 := MK (opds s3) (ops s3) (length (ops s3)) (pos s3) (pos s3)) in *.
+    assert (Hpost4 : is_op is_postfix_row (pos s3) = false) by (unfold is_op; rewrite Hnopost; reflexivity).
+    destruct (negb (has_infix tb)) eqn:Ehi.
+    { inversion Hm; subst sf. rewrite (finish_pos _ _ _ Hf). cbn [s4 pos]. split; [exact Hpost4|]. left.
+      apply negb_true_iff in Ehi. exact Ehi. }
+    apply negb_false_iff in Ehi.
+    destruct (parse_op tb toks is_infix_row (pos s4)) as [[[[prec a] name] p'']|] eqn:Einf.
+    2:{ inversion Hm; subst sf. rewrite (finish_pos _ _ _ Hf). cbn [s4 pos] in *. split; [exact Hpost4|]. right. left.
+        unfold is_op. rewrite Einf. reflexivity. }
+    destruct (parse_op_lk _ _ _ _ _ _ _ Einf) as (Hl & Hp'' & _).
+    destruct (prec_loop_PA name a (length (ops s4) + 1) prec (set_pos s4 p'') Hl) as (Q1 & Q2 & Q3 & Q4 & (n & Q5) & Q6 & Q7 & Q8 & Q9).
+    { exact HA3. } { apply closedR_rsp. exact Hcl. }
+    destruct (prec_loop (length (ops s4) + 1) prec (set_pos s4 p'')) as [s5 conflict] eqn:Epl.
+    cbn [fst snd] in *. cbn [set_pos opds ops outer marker pos s4] in Q3, Q4, Q5, Q6, Q7, Q8.
+    destruct conflict.
+    + (* non-associative conflict: the operator belongs to a non-associative row *)
+      inversion Hm; subst sf. rewrite (finish_pos _ _ _ Hf), (Q7 eq_refl). split; [exact Hpost4|]. right. right. right.
+      cbn [s4 pos] in Einf.
+      rewrite (Q9 eq_refl) in Einf. eauto.
+    + eapply IH; [| |exact Hm|exact Hf].
+      * (* JB of the next state: as in main2_pok *)
+        destruct (opds s5) as [|l rest] eqn:Eo5; [destruct Q1|].
+        assert (Q1' := Q1). destruct Q1 as (Hpl & Htf & HB5). cbn [top_rsp] in Q2.
+        assert (Hlen : length (ops s5) <= length (ops s3)) by (rewrite Q5, skipn_length; lia).
+        split.
+        -- cbn [opds ops PB].
+           destruct (lk_infix_id _ _ _ Hl) as [Ha|[Ha|Ha]]; rewrite Ha in *; cbn [Nat.eqb];
+             (split; [exact Hl|]; split; [exact Hpl|]; split; [exact Q2|]; split; [|exact HB5]);
+             (specialize (Q8 eq_refl); destruct (ops s5) as [|[[tp ta] o5] ops5]; cbn [fits_above]; auto;
+              split; [apply Q8; cbn [s4 ops]; lia | exact Htf]).
+        -- right. cbn [opds ops marker outer pos length].
+           replace (S (length (ops s5)) - length (ops s5)) with 1 by lia. cbn [skipn].
+           split; [lia|]. exact Q1'.
+      * (* JE of the next state *)
+        right. cbn [opds ops marker outer pos]. rewrite Q4, (Q6 eq_refl). cbn [s4 pos] in Einf.
+        split; [exact Hp''|]. split; [exact Hpost4|]. split; [unfold is_op; rewrite Einf; reflexivity|exact Ehi].
+  - (* no operand *)
+    destruct (opds s1) as [|o0 os] eqn:Eo.
+    + cbn [nonempty] in Hm. inversion Hm; subst sf. unfold finish in Hf. rewrite Eo in Hf. discriminate.
+    + cbn [nonempty] in Hm. inversion Hm; subst sf. rewrite (finish_pos _ _ _ Hf). cbn [set_pos pos].
+      destruct HE as [HE|(E1 & E2 & E3 & E4)]; [rewrite Hopd1 in Eo; congruence|].
+      rewrite Hout1. split; [exact E2|]. right. right. left.
+      unfold dangling. rewrite <- E1, <- Hpos1. exact Eopd.
+Qed.
+
 End Toks.
 End Prec.
 
@@ -399,4 +519,11 @@ Corollary run2_pok tb toks k sf t e :
   main2 tb toks k (MK [] [] 0 0 0) = Some sf -> finish sf = Some (t, e) -> pok tb t = true.
 Proof.
   apply main2_pok. split; [reflexivity|]. left. reflexivity.
+Qed.
+
+(* from the initial state: the expression ends only where it has to *)
+Corollary run2_stop tb toks k sf t e :
+  main2 tb toks k (MK [] [] 0 0 0) = Some sf -> finish sf = Some (t, e) -> stop_ok tb toks e.
+Proof.
+  apply main2_stop; [split; [reflexivity|left; reflexivity]|left; reflexivity].
 Qed.
